@@ -468,6 +468,9 @@ def world_replay(job):
             exec_case(p['scripts'], p['wcfg'], count)
         except Exception:  # noqa: BLE001
             pass
+        # the probe battery that followed every run of the world is part of the
+        # process history too (it contains parses that abort)
+        texapi.sanity()
     run = exec_case(job['scripts'], job['side']['wcfg'], count)
     ok, why = texapi.sanity()
     v = run.violation
